@@ -135,3 +135,56 @@ class RampNet(L.LightningModule):
             else:
                 raise ValueError(self.mode)
         return torch.stack(outs, 0)
+
+
+class RampBottomUpNet(RampNet):
+    """Ideal bottom-up network on coordinate-encoding frames: multi-animal confidence maps
+    (per node, max over animals) at `cms_stride` and part-affinity fields (unit vector src->dst
+    times a ridge weight that is 1 on the segment and decays with the ORIGINAL-pixel distance
+    from it, summed over animals) at `paf_stride`; channel order edge0.x, edge0.y, ... as the
+    property states."""
+
+    def __init__(self, gt, n_nodes, edges, cms_stride, paf_stride, sigma_cm, sigma_paf):
+        super().__init__(gt, cms_stride, sigma_cm, "bottomup", n_nodes)
+        self.edges = edges
+        self.paf_stride = paf_stride
+        self.sigma_paf = sigma_paf
+
+    def forward(self, x):
+        x = _squeeze(x).to(torch.float32)
+        cms_out, paf_out = [], []
+        for img in x:
+            fid, x0, y0, mask = self.decode(img)
+            animals = self.gt.get(fid, [])
+            s = self.stride
+            xs, ys, ms = x0[::s, ::s], y0[::s, ::s], mask[::s, ::s]
+            chans = []
+            for n in range(self.n_nodes):
+                ch = torch.zeros_like(xs)
+                for an in animals:
+                    ch = torch.maximum(ch, self.bump(xs, ys, ms, an[n]))
+                chans.append(ch)
+            cms_out.append(torch.stack(chans, 0))
+            p = self.paf_stride
+            xp, yp, mp = x0[::p, ::p], y0[::p, ::p], mask[::p, ::p]
+            pch = []
+            for (a, b) in self.edges:
+                fx, fy = torch.zeros_like(xp), torch.zeros_like(xp)
+                for an in animals:
+                    if an[a] is None or an[b] is None:
+                        continue
+                    sx, sy, dx, dy = an[a][0], an[a][1], an[b][0], an[b][1]
+                    vx, vy = dx - sx, dy - sy
+                    L2 = vx * vx + vy * vy
+                    if L2 == 0:
+                        continue
+                    t = torch.clamp(((xp - sx) * vx + (yp - sy) * vy) / L2, 0.0, 1.0)
+                    d2 = (xp - (sx + t * vx)) ** 2 + (yp - (sy + t * vy)) ** 2
+                    wgt = torch.exp(-d2 / (2.0 * self.sigma_paf**2))
+                    wgt = torch.where(mp > 0.5, wgt, torch.zeros_like(wgt))
+                    L = L2**0.5
+                    fx = fx + wgt * (vx / L)
+                    fy = fy + wgt * (vy / L)
+                pch += [fx, fy]
+            paf_out.append(torch.stack(pch, 0))
+        return {"MultiInstanceConfmapsHead": torch.stack(cms_out, 0), "PartAffinityFieldsHead": torch.stack(paf_out, 0)}
